@@ -233,19 +233,22 @@ type vc08World struct {
 	au     *accountUpdates
 	gate   *vc08Gate
 	totals ledgercore.AccountTotals
-	phase  int // 0 idle, 1 at G1, 2 at G2
+	phase  int  // 0 idle, 1 at G1, 2 at G2
 	sparse bool // only a random third of the lookups of a sweep are issued
 	done   chan struct{}
-	arm    atomic.Bool            // the next DB lookup of a reader is held before it returns
-	nreads atomic.Int64           // DB lookups issued by readers so far
-	heldCh chan chan struct{}     // a reader reports that it is held (and how to release it)
-	held   [3][]vc08Held          // held readers per space (0 accounts, 1 resources, 2 KV)
+	arm    atomic.Bool        // the next DB lookup of a reader is held before it returns
+	nreads atomic.Int64       // DB lookups issued by readers so far
+	heldCh chan chan struct{} // a reader reports that it is held (and how to release it)
+	held   [3][]vc08Held      // held readers per space (0 accounts, 1 resources, 2 KV)
 	ops    []interface{}
 
 	// universe
-	addrs []uint64
-	cidxs []uint64
-	keys  []string
+	addrs    []uint64
+	cidxs    []uint64
+	keys     []string
+	resPairs [][2]uint64 // if set: the (account, creatable) pairs to look up (default addrs x cidxs)
+	creIdx   []uint64    // if set: the creatables whose creator is looked up (default cidxs)
+	noLatest bool        // the generator does not keep the resource counters: no lookupLatest
 
 	// generator's own view of the latest state (to produce well-formed deltas)
 	gAcct  map[uint64]vc08Acct
@@ -582,7 +585,7 @@ func (w *vc08World) qCre(rnd, cidx, ctype uint64) interface{} {
 // cache writes are not modelled, so it is only issued where the caches are about to be discarded
 // (before a reload, at the end of a run); the answers go to the oracle alone.
 func (w *vc08World) latestSweep() {
-	if w.phase == 2 {
+	if w.phase == 2 || w.noLatest {
 		return
 	}
 	for _, a := range w.addrs {
@@ -677,18 +680,25 @@ func (w *vc08World) sweep(r *vRand, dense bool) (blocked []vc08Blocked) {
 			}
 			w.ops = append(w.ops, vL(vSym("qa"), rnd, a, obs))
 		}
-		for _, a := range w.addrs {
-			for _, c := range w.cidxs {
-				if skip() {
-					continue
+		pairs := w.resPairs
+		if pairs == nil {
+			for _, a := range w.addrs {
+				for _, c := range w.cidxs {
+					pairs = append(pairs, [2]uint64{a, c})
 				}
-				obs := w.qRes(rnd, a, c)
-				w.count(obs)
-				if obs == vSym("retry") {
-					blocked = append(blocked, vc08Blocked{kind: "qr", rnd: rnd, a: a, b: c})
-				}
-				w.ops = append(w.ops, vL(vSym("qr"), rnd, a, c, obs))
 			}
+		}
+		for _, pr := range pairs {
+			a, c := pr[0], pr[1]
+			if skip() {
+				continue
+			}
+			obs := w.qRes(rnd, a, c)
+			w.count(obs)
+			if obs == vSym("retry") {
+				blocked = append(blocked, vc08Blocked{kind: "qr", rnd: rnd, a: a, b: c})
+			}
+			w.ops = append(w.ops, vL(vSym("qr"), rnd, a, c, obs))
 		}
 		for _, k := range w.keys {
 			if skip() {
@@ -701,7 +711,11 @@ func (w *vc08World) sweep(r *vRand, dense bool) (blocked []vc08Blocked) {
 			}
 			w.ops = append(w.ops, vL(vSym("qk"), rnd, []byte(k), obs))
 		}
-		for _, c := range w.cidxs {
+		cres := w.creIdx
+		if cres == nil {
+			cres = w.cidxs
+		}
+		for _, c := range cres {
 			for ct := uint64(0); ct < 2; ct++ {
 				if skip() {
 					continue
@@ -1437,4 +1451,175 @@ func TestVerifC08LatePendingTurnover(t *testing.T) {
 	}
 	b, _ := json.MarshalIndent(st, "", " ")
 	os.WriteFile(filepath.Join(os.Getenv("VERIF_OUT"), "stats_late_turnover.json"), b, 0644)
+}
+
+// Every short write pattern inside and across commit ranges.  For each length L <= 4 and each cut
+// c in 0..L one tracker stack runs, in parallel on separate keys, all 2^L patterns over
+// {write (create / modify), delete} for an account, a resource, a box and a creatable, once starting
+// from a key that is already in the DB and once from a key that is not: round 1 creates the
+// "present" keys and is committed; rounds 2..L+1 apply the patterns; then rounds 2..c+1 are
+// committed in one flush and the rest in a second one (c = 0 / c = L: a single flush).  Everything
+// is looked up at every round after every step, and again after a reload.  (A creatable pattern is
+// left out of a stack when a flush would have to INSERT an index that is in the table at its start:
+// that SQL error would abort the flush for all the other keys.)
+func TestVerifC08Patterns(t *testing.T) {
+	if os.Getenv("VERIF_OUT") == "" {
+		t.Skip("VERIF_OUT not set")
+	}
+	out := vOpen("cases_patterns.txt")
+	defer out.Close()
+	stats := map[string]int{}
+	r := vNewRand(0xc08a)
+	maxL := vEnvInt("VERIF_C08_PATLEN", 4)
+	full := vEnvInt("VERIF_C08_PATFULL", 0) == 1 // quick: length 4 only with the cuts 0, 2, 4
+	const holder = 1                             // the account that owns every resource / creatable
+	for L := 1; L <= maxL; L++ {
+		for cut := 0; cut <= L; cut++ {
+			if L == 4 && !full && cut%2 == 1 {
+				continue
+			}
+			t.Run(fmt.Sprintf("L%d_cut%d", L, cut), func(t *testing.T) {
+				w, gen := vc08NewWorld(t, stats, 0, (L+cut)%3 == 2, []vc08Gen{{holder, vc08Acct{algos: 1000}}})
+				defer w.close()
+				npat := 1 << uint(L)
+				type slot struct {
+					pat     int
+					present bool
+					id      uint64
+				}
+				var slots []slot
+				for p := 0; p < npat; p++ {
+					slots = append(slots, slot{p, true, uint64(2 * p)}, slot{p, false, uint64(2*p + 1)})
+				}
+				isWrite := func(p, step int) bool { return p>>uint(step)&1 == 1 }
+				// ranges of pattern steps flushed together
+				ranges := [][2]int{{0, cut}, {cut, L}}
+				creOK := func(sl slot) bool {
+					cur := sl.present
+					for _, rg := range ranges {
+						if rg[0] == rg[1] {
+							continue
+						}
+						start := cur
+						for st := rg[0]; st < rg[1]; st++ {
+							cur = isWrite(sl.pat, st)
+						}
+						if start && cur {
+							return false
+						}
+					}
+					return true
+				}
+				acctOf := func(sl slot) uint64 { return 100 + sl.id }
+				resOf := func(sl slot) uint64 { return 200 + sl.id } // even ids: assets, odd: apps
+				creOf := func(sl slot) uint64 { return 400 + sl.id }
+				keyOf := func(sl slot) string { return fmt.Sprintf("p%02d", sl.id) }
+				w.addrs = []uint64{holder, 9}
+				w.keys, w.resPairs, w.creIdx = nil, nil, nil
+				for _, sl := range slots {
+					w.addrs = append(w.addrs, acctOf(sl))
+					w.keys = append(w.keys, keyOf(sl))
+					w.resPairs = append(w.resPairs, [2]uint64{holder, resOf(sl)})
+					if creOK(sl) {
+						w.creIdx = append(w.creIdx, creOf(sl))
+					}
+				}
+				w.cidxs = w.creIdx
+				w.noLatest = true
+				step := func() {
+					w.dump()
+					w.sweep(r, true)
+				}
+				// generator-side current values
+				kv := map[string][]byte{}
+				resCur := map[uint64]bool{}
+				ser := uint64(0)
+				apply := func(d *vc08Delta, sl slot, write bool) {
+					ser++
+					if write {
+						d.accts = append(d.accts, struct {
+							addr uint64
+							a    vc08Acct
+						}{acctOf(sl), vc08Acct{algos: 10 + ser}})
+						d.res = append(d.res, vc08Res{holder, resOf(sl), int64(ser % 7), int64(ser % 5)})
+						resCur[resOf(sl)] = true
+						k := keyOf(sl)
+						nv := []byte{byte(ser), byte(ser >> 8)}
+						d.kv = append(d.kv, vc08Kv{k, nv, kv[k]})
+						kv[k] = nv
+						if creOK(sl) {
+							d.cre = append(d.cre, vc08Cre{creOf(sl), true, holder, creOf(sl) % 2})
+						}
+					} else {
+						d.accts = append(d.accts, struct {
+							addr uint64
+							a    vc08Acct
+						}{acctOf(sl), vc08Acct{}})
+						h := int64(-2)
+						if !resCur[resOf(sl)] && ser%2 == 0 {
+							h = -1 // absent before: nil and not deleted is legal too
+						}
+						d.res = append(d.res, vc08Res{holder, resOf(sl), -2, h})
+						resCur[resOf(sl)] = false
+						k := keyOf(sl)
+						d.kv = append(d.kv, vc08Kv{k, nil, kv[k]})
+						delete(kv, k)
+						if creOK(sl) {
+							d.cre = append(d.cre, vc08Cre{creOf(sl), false, holder, creOf(sl) % 2})
+						}
+					}
+				}
+				step()
+				// round 1: the keys that are in the DB when the patterns start
+				d0 := &vc08Delta{}
+				for _, sl := range slots {
+					if sl.present {
+						apply(d0, sl, true)
+					}
+				}
+				w.opBlock(d0)
+				step()
+				commit := func(rnd uint64) {
+					w.opSchedule(rnd)
+					step()
+					if w.phase == 1 {
+						w.opCommit()
+						step()
+					}
+					if w.phase == 2 {
+						w.opPost(nil)
+						step()
+					}
+				}
+				commit(1)
+				for st := 0; st < L; st++ {
+					d := &vc08Delta{}
+					for _, sl := range slots {
+						apply(d, sl, isWrite(sl.pat, st))
+					}
+					w.opBlock(d)
+					step()
+				}
+				if cut > 0 {
+					commit(uint64(1 + cut))
+				}
+				if cut < L {
+					commit(uint64(1 + L))
+				}
+				w.opReload()
+				step()
+				w.opBlock(&vc08Delta{})
+				step()
+				w.emit(out, gen)
+				stats["pattern_stacks"]++
+				stats["pattern_slots"] += len(slots)
+			})
+		}
+	}
+	st := map[string]interface{}{}
+	for k, v := range stats {
+		st[k] = v
+	}
+	b, _ := json.MarshalIndent(st, "", " ")
+	os.WriteFile(filepath.Join(os.Getenv("VERIF_OUT"), "stats_patterns.json"), b, 0644)
 }
